@@ -56,6 +56,7 @@ fn main() {
                     }
                 });
             }
+            _ if mux::replay_other(&ctx, &case) => {}
             _ => vcore::machinery_exit("replay case has no 'part'"),
         }
         ctx.finish(false);
@@ -80,7 +81,7 @@ fn main() {
          no panic. (b) stream, real DnsMultiplexer over a scripted DnsClientStream with hand-fired timeout futures, manual polls: \
          BFS with state matching over events send / deliver(response with the id of request i, live or already removed) / \
          byte-identical duplicate / unknown id / undecodable (3 bytes; header with a live id + cut question) / drop receiver i / \
-         timer i fires / stream error / stream end / poll, k <= 3 requests, depth 9 (thorough 12), \
+         timer i fires / stream error / stream end / shutdown / poll, k <= 3 requests, depth 9 (thorough 11), \
          max_active_requests in {32, 2, 1}, at most qmax = 3 (thorough up to 5) unread inbound messages. Reference routing table keyed by the ids seen \
          on the wire: each response read while a request with its id is pending appears exactly once, in order, on that \
          request's receiver and nowhere else; ids of pending requests pairwise distinct; unknown/undecodable/late messages \
@@ -118,7 +119,24 @@ fn main() {
          (the request channel, the stream and the timers wake the background future; it is dropped when it completes): \
          same routing reference; once the connection is closed or the background future is gone no submitted request - \
          including those still waiting in the exchange's channel - stays pending; wake-driven: a submitted request, an \
-         available response or the close are never left behind without a pending wake-up. states/transitions/traces_validated_against_impl are sums over both parts: \
+         available response or the close are never left behind without a pending wake-up. AUDIT ROUND. (a) 16 further client configurations over short schedules (length <= 2, thorough 3, 61 symbols): \
+         max_retries 0, with_timeout(None), use_edns off (512-byte buffer), EDNS payload 65535 (buffer capped at 4096), fixed \
+         local port, explicit port 0, avoid_local_ports = all ports, os_port_selection, signer present but unused, signer \
+         used (IXFR query: the transport signs, EVERY scripted reply is signed by the reference vref::tsig chained to the \
+         request MAC, plus replies with missing / bit-flipped / wrong-secret / unchained TSIG: never Ok), bind_udp failing \
+         (in use once / 12 times / denied / other), send_to short / failing; further layouts of the genuine reply in the \
+         short-schedule family (TC, NOTIFY opcode, SERVFAIL, compressed answer owner, trailing octets, 4,200-byte reply, \
+         second question compressed); second step: the judged request issued on a client object that already served a \
+         request (completed / timed out / cancelled / still in flight) from the same fixed port with the same or another \
+         caller-chosen id and question, the late genuine reply to the FIRST request being a datagram kind (a reply that \
+         matches id, question and source of the judged request is indistinguishable and admissible). (b) shutdown() is an \
+         event of both BFS families; max_active_requests 0; id-space saturation: 65,536 (and 65,535) requests in flight so \
+         that every draw of the id generator collides, 20 further sends refused, half of them cancelled / timed out, refill \
+         (every new id is a just-released one), late replies to released ids reach the CURRENT holder only, close fails all; \
+         multiplexer with a signer: 2 signed requests x all sequences of <= 3 (thorough 4) messages over {signed, bad MAC, \
+         unsigned, signed for the other request} x id: only reference-valid messages arrive as Ok, one item per message, \
+         nothing on the other receiver. (c) outbound handle with a 0-message buffer (a second request forwarded in one poll \
+         is lost at the handle and fails), max_active 0. states/transitions/traces_validated_against_impl are sums over both parts: \
          (b) BFS states and transitions (every transition = one replay of the history on a fresh real multiplexer compared \
          with the reference) + (a) schedules consumed to their end (distinct environment histories reached) / datagrams consumed \
          / schedules executed. Non-trivial = (a) schedules in which a non-matching datagram was consumed before the genuine \
@@ -161,6 +179,23 @@ fn main() {
         "udp:cfg:receive-buffer-512:err:attempts-exceeded",
         "udp:transmissions=5",
         "udp:composed-question-section:rand-on:ok",
+        "udp:cfg:tsig-ixfr:ok",
+        "obs:udp-reply-failing-tsig-verification-ends-query",
+        "udp:cfg:no-edns:ok",
+        "udp:cfg:bind-in-use-12-times:err:other-error",
+        "udp:cfg:send-short:err:other-error",
+        "udp:local-ports:avoid-all-ports:zero",
+        "udp:local-ports:bind-fixed-port:the-fixed-port",
+        "udp:second-step:first-timed-out:timeout:then:ok",
+        "udp:second-step:first-in-flight:in-flight:then:ok",
+        "mux:saturation:65536-ids-in-flight",
+        "mux:saturation:send-refused-when-full",
+        "mux:saturation:late-reply-reaches-new-holder-of-the-id",
+        "mux:saturation:all-pending-failed-on-close",
+        "mux:tsig:valid-first-response-delivered",
+        "mux:tsig:unverifiable-message-reported-as-error",
+        "mux:shutdown-with-pending-requests",
+        "ex:request-failed-at-the-outbound-handle",
         "udp:composed-question-section:rand-on:err:case-mismatch",
         "udp:composed-question-section:rand-off:ok",
         "ex:response-delivered",
